@@ -160,6 +160,55 @@ def _check_pure_dict(a):
   return None
 
 
+def _check_mixed_and_shared():
+  """(1) plain dicts with FrozenDict subtrees (and the reverse): flat keys are FULL leaf paths and path_aware_map reaches every
+  leaf; (2) one dict OBJECT reachable under two paths: flatten / unflatten and the State conversions lose nothing"""
+  from flax import traverse_util, nnx
+  from flax.core import freeze, unfreeze, FrozenDict
+  from flax.nnx import traversals
+  n = 0
+  inner = {'kernel': 1, 'bias': {'b0': 2, 'b1': 3}}
+  mixes = {
+      'dict of FrozenDicts': {'params': freeze(inner), 'batch_stats': freeze({'mean': 4})},
+      'FrozenDict below two dict levels': {'a': {'b': freeze(inner)}, 'c': 5},
+      'dict inside FrozenDict inside dict': {'top': FrozenDict({'mid': {'leaf': 7}, 'x': 8})},
+  }
+  for tag, t in mixes.items():
+    plain = unfreeze(freeze(t))
+    want_paths = sorted(p for p, v in _leaf_paths(plain))
+    for sep in (None, '/'):
+      n += 1
+      flat = traverse_util.flatten_dict(t, sep=sep)
+      got_paths = sorted(tuple(k.split(sep)) if sep else k for k in flat)
+      if got_paths != want_paths or any(isinstance(v, (dict, FrozenDict)) for v in flat.values()):
+        return n, f'flatten_dict({tag}, sep={sep!r}) has keys {got_paths}; the leaves sit at {want_paths}'
+      if unfreeze(freeze(traverse_util.unflatten_dict(flat, sep=sep))) != plain:
+        return n, f'unflatten_dict(flatten_dict({tag})) is not the original tree'
+    n += 1
+    seen = []
+    traverse_util.path_aware_map(lambda p, v: seen.append(p) or v, t)
+    if sorted(seen) != want_paths:
+      return n, f'path_aware_map over {tag} visited {sorted(seen)}; the leaves sit at {want_paths}'
+  blk = {'w': 1, 'sub': {'b': 2}}
+  shared = {'enc': blk, 'dec': blk, 'head': {'w': 3}}
+  want = {('enc', 'w'): 1, ('enc', 'sub', 'b'): 2, ('dec', 'w'): 1, ('dec', 'sub', 'b'): 2, ('head', 'w'): 3}
+  n += 1
+  flat = traversals.flatten_mapping(shared)
+  if dict(flat) != want or traversals.unflatten_mapping(flat) != shared:
+    return n, f'traversals.flatten_mapping of a tree whose sub-dict object is reachable under two paths gives {dict(flat)}, expected {want}'
+  n += 1
+  if dict(traverse_util.flatten_dict(shared)) != want:
+    return n, f'traverse_util.flatten_dict of a tree with a shared sub-dict object gives {dict(traverse_util.flatten_dict(shared))}'
+  n += 1
+  st = nnx.State({'encoder': {'w': 1, 'sub': {'b': 2}}, 'head': {'w': 3}})
+  st['decoder'] = st['encoder']
+  fs = nnx.to_flat_state(st)
+  want_s = {('encoder', 'w'): 1, ('encoder', 'sub', 'b'): 2, ('decoder', 'w'): 1, ('decoder', 'sub', 'b'): 2, ('head', 'w'): 3}
+  if dict(fs) != want_s or nnx.from_flat_state(fs) != st or nnx.to_pure_dict(st) != {'encoder': {'w': 1, 'sub': {'b': 2}}, 'decoder': {'w': 1, 'sub': {'b': 2}}, 'head': {'w': 3}}:
+    return n, f'State with one sub-state assigned under two keys: flat state {dict(fs)}, pure dict {nnx.to_pure_dict(st)}'
+  return n, None
+
+
 def _odd_key_trees():
   """nested dicts whose keys are unusual but legal strings (empty, blank, digits, containing '.'): the separator '/' or '|'
   does not occur in any of them"""
@@ -257,6 +306,14 @@ def run(tier, seed):
       break
   if not fails:
     try:
+      n, msg = _check_mixed_and_shared()
+    except Exception as e:  # noqa
+      n, msg = 1, f'raised {e!r}'
+    cases += n
+    if msg:
+      fails.append(dict(inputs=dict(api='flatten / path_aware_map on mixed dict-FrozenDict trees and shared sub-dicts'), observed=msg[:400], violated='inverse-law'))
+  if not fails:
+    try:
       n, msg = _check_type_split()
     except Exception as e:  # noqa
       n, msg = 1, f'raised {e!r}'
@@ -285,11 +342,13 @@ def run(tier, seed):
       if msg:
         fails.append(dict(inputs=dict(a=repr(a), b=repr(b), api='nnx.State diff/merge'), observed=msg[:400], violated='state-algebra'))
         break
-  return dict(name=NAME, cases=cases, distinct=len(trees), bound=f'all nested dicts of depth <= {depth}, <= 2 keys/level from {{a,b,c}}, leaves {{0,(),"x",{{}}}} + nested dicts over the keys {{w, layer.0, 7, blank, empty}} with separators / and |; split_state / filter_state by every ordered choice of <= 3 of 5 Variable types (+ ...); State diff/merge on 10 x 10 small nested states; replace_by_pure_dict with every subset of leaves',
+  return dict(name=NAME, cases=cases, distinct=len(trees), bound=f'all nested dicts of depth <= {depth}, <= 2 keys/level from {{a,b,c}}, leaves {{0,(),"x",{{}}}} + nested dicts over the keys {{w, layer.0, 7, blank, empty}} with separators / and |; 3 mixed dict / FrozenDict nestings; a sub-dict object reachable under two paths (dict and nnx.State); split_state / filter_state by every ordered choice of <= 3 of 5 Variable types (+ ...); State diff/merge on 10 x 10 small nested states; replace_by_pure_dict with every subset of leaves',
               exhaustive=True, failures=fails[:2], error=None)
 
 
 def replay(inputs):
+  if inputs.get('api') == 'flatten / path_aware_map on mixed dict-FrozenDict trees and shared sub-dicts':
+    return _check_mixed_and_shared()[1] is None
   if inputs.get('api') == 'nnx.split_state / filter_state by Variable types':
     return _check_type_split()[1] is None
   if inputs.get('api') == 'nnx to_pure_dict / replace_by_pure_dict':
